@@ -32,6 +32,26 @@ def _rec(kind, **kw):
         EVENTS.append(kw)
 
 
+def wrap_measurement_class(cls):
+    """Record every compute_matrices call of a Measurement class (built-in or user-defined)."""
+    name = cls.__name__
+
+    def post(ctx, args, kwargs, result):
+        self, time, pva, em = args[:4]
+        rec = dict(cls=name, time=float(time), hit=result is not None, with_altitude=bool(em.with_altitude))
+        if result is not None:
+            z, H, R = result
+            rec['rows'] = int(len(np.asarray(z)))
+            rec['finite'] = bool(np.isfinite(np.asarray(z, float)).all() and np.isfinite(np.asarray(H, float)).all())
+            if STATE['keep_arrays']:
+                rec['z'] = np.array(z, float)
+                rec['H'] = np.array(H, float)
+                rec['R'] = np.array(R, float)
+                rec['pva'] = pva.copy()
+        _rec('compute_matrices', **rec)
+    patch.wrap(cls, 'compute_matrices', post=post, counter='ev_cm_' + name)
+
+
 def install():
     patch.import_all()
     from pyins import strapdown, measurements, kalman, inertial_sensor, error_model
@@ -55,23 +75,8 @@ def install():
     patch.wrap(strapdown.Integrator, 'predict', post=post_predict, counter='ev_predict')
     patch.wrap(strapdown.Integrator, 'set_pva', post=post_set_pva, counter='ev_set_pva')
 
-    def mk_post_cm(name):
-        def post(ctx, args, kwargs, result):
-            self, time, pva, em = args[:4]
-            rec = dict(cls=name, time=float(time), hit=result is not None, with_altitude=bool(em.with_altitude))
-            if result is not None:
-                z, H, R = result
-                rec['rows'] = int(len(np.asarray(z)))
-                rec['finite'] = bool(np.isfinite(np.asarray(z, float)).all() and np.isfinite(np.asarray(H, float)).all())
-                if STATE['keep_arrays']:
-                    rec['z'] = np.array(z, float)
-                    rec['H'] = np.array(H, float)
-                    rec['R'] = np.array(R, float)
-                    rec['pva'] = pva.copy()
-            _rec('compute_matrices', **rec)
-        return post
     for cls in (measurements.Position, measurements.NedVelocity, measurements.BodyVelocity):
-        patch.wrap(cls, 'compute_matrices', post=mk_post_cm(cls.__name__), counter='ev_cm_' + cls.__name__)
+        wrap_measurement_class(cls)
 
     def post_correct(ctx, args, kwargs, result):
         rec = dict(n=len(args[0]), m=len(args[2]), finite=bool(all(np.isfinite(np.asarray(r, float)).all() for r in result)))
